@@ -352,6 +352,13 @@ func (in *inst) probe() {
 		}
 		return "x"
 	}
+	// keep the FIRST answer recorded while a partition is being worked on: that is the placement query of its own
+	// decision (before its migrate / planned-removal write). Later reads of all namespaces in the same event
+	// (doSchemaCheck at the end of a successful full check) see the register AFTER the round's writes and must not
+	// replace it.
+	if _, done := in.probes[cur]; done {
+		return
+	}
 	in.probes[cur] = [2]string{pick(in.placeLists(all)), pick(in.placeLists(avail))}
 }
 
